@@ -753,6 +753,7 @@ package nutsdb
 //@   loops 1
 //@   loop 1: modifies db.ActiveFile.ActualSize, lastReadOff
 //@   loop 1: invariant off >= 0 && db == old(db) && db.ActiveFile == old(db.ActiveFile) && db.ActiveFile.rwManager != nil && db.ActiveFile.ActualSize == off
+//@   at return #1: assert[C09,C19] off < db.opt.SegmentSize
 
 //@ func DB.parseDataFiles
 //@   requires db != nil && db.BPTreeKeyEntryPosMap != nil && db.ActiveCommittedTxIdsIdx != nil && (db.opt.EntryIdxMode == HintBPTSparseIdxMode ==> len(dataFileIds) > 0) && nodesOK(nil)
